@@ -625,7 +625,8 @@ def stack_chain(repo: Repo) -> RuleRun:
                 if f_.attr == "copy":
                     return Obj("sketch", hist=recv.get("hist"))
                 t = ev.eval(call.args[0])
-                recv.set("hist", recv.get("hist") + (repr(t),))  # transform() works in place and returns self
+                steps = tuple(x.name if isinstance(x, Sym) else repr(x) for x in (t if isinstance(t, (list, tuple)) else [t]))
+                recv.set("hist", recv.get("hist") + steps)  # transform() works in place, applies the list in order and returns self
                 return recv
         if name == "LoftedShape":
             args = [ev.eval(a) for a in call.args]
@@ -638,16 +639,19 @@ def stack_chain(repo: Repo) -> RuleRun:
         this = Obj("stack", cls=repo.cls("construct.stack.TransformedStack"))
         base = Obj("base", hist=())
         try:
-            Evaluator(repo=repo, module=init.module, call_hook=hook).call_funcinfo(init, [this, base, Sym("E"), 3, Sym("M") if with_mid else None])
+            # E = [T, R]: two transformations that need not commute (a translation and a rotation); M = [m]
+            Evaluator(repo=repo, module=init.module, call_hook=hook).call_funcinfo(init, [this, base, [Sym("T"), Sym("R")], 3, [Sym("m")] if with_mid else None])
         except (NotEvaluable, Raised) as err:
             raise AnalysisError(f"TransformedStack.__init__ not evaluable on the symbolic sketch: {err}") from err
-        want = [(("E",) * k, ("E",) * (k + 1), (("E",) * k + ("M",)) if with_mid else None) for k in range(3)]
+        E = ("T", "R")
+        want = [(E * k, E * (k + 1), (E * k + ("m",)) if with_mid else None) for k in range(3)]
         r.check(
             tiers == want,
             init,
             f"{'with' if with_mid else 'without'} mid transforms: 3 tiers chained as E^k / M E^k / E^(k+1)",
-            f"TransformedStack(base, E, repeats=3{', mid=M' if with_mid else ''}) builds its tiers from (start, end, mid) = {tiers}; expected {want}: every tier must start where the previous one "
-            "ended, and its arc points must be derived from its OWN start sketch (a mid sketch taken from the base sketch puts the arcs of tier 2, 3, ... where tier 1's are)",
+            f"TransformedStack(base, E=[T, R], repeats=3{', mid=[m]' if with_mid else ''}) builds its tiers from (start, end, mid) = {tiers}; expected {want}: every tier must start where the previous one "
+            "ended - the WHOLE list E applied once more, in its order (T^k then R^k is another place unless T and R commute) - and its arc points must be derived from its OWN start sketch (a mid sketch "
+            "taken from the base sketch puts the arcs of tier 2, 3, ... where tier 1's are)",
             init.node,
             key=f"tiers:{'mid' if with_mid else 'no-mid'}",
         )
